@@ -49,4 +49,6 @@ int64_t big(int64_t v);
 #include <cstddef>
 int fillTo(int v, size_t n = 3);
 int get(int k);
+void setv(int a);
+int setv(const std::string &name, double v = 1.5);
 #endif
